@@ -424,12 +424,12 @@ def parse_model(ans, nsteps):
 # ------------------------------------------------------------------------------------------------
 # generators
 # ------------------------------------------------------------------------------------------------
-def gen_exhaustive(drv, cap, depth, tier, max_issue, max_frag):
+def gen_exhaustive(drv, cap, depth, rich, max_issue, max_frag):
     """All histories of `depth` events over the state-dependent alphabet (see notes/C08.md), enumerated
     breadth first; the model state after each prefix (from the driver) only decides which letters are
     enabled: after the transport is closed at most two more events from {I, D[H], A(30 s)} are explored
     (the closed state is absorbing), Cancel ranges over the pending ids plus one completed id."""
-    rich = tier == "thorough"
+    rich = rich in (True, "thorough")
     level = [([], dict(frag=0, lastA=False, closed_len=0))]
     leaves = []
     for d in range(depth):
@@ -570,10 +570,17 @@ def _work(case):
 def run_many(cases, workers):
     if len(cases) < 200 or workers <= 1:
         return [_work(c) for c in cases]
+    import gc
+
     import aiohomekit.controller.ip.pairing  # noqa  (import once, before forking)
-    ctx = multiprocessing.get_context("fork")
-    with ctx.Pool(workers) as pool:
-        return pool.map(_work, cases, chunksize=max(50, min(500, len(cases) // (workers * 8) or 1)))
+    gc.collect()
+    gc.freeze()          # keep the children's collector away from the (large) inherited heap
+    try:
+        ctx = multiprocessing.get_context("fork")
+        with ctx.Pool(workers) as pool:
+            return pool.map(_work, cases, chunksize=max(50, min(500, len(cases) // (workers * 8) or 1)))
+    finally:
+        gc.unfreeze()
 
 
 def compare(hist, res, model_steps):
@@ -607,20 +614,22 @@ def run(ctx):
     else:
         streams.append(("directed", list(DIRECTED)))
         if tier == "quick":
-            plan = [(1, 6, 3, 1), (2, 5, 3, 1)]
+            plan = [(1, 6, False, 3, 1), (2, 5, False, 3, 1)]
         else:
-            plan = [(1, 7, 3, 1), (2, 6, 3, 1), (3, 5, 4, 1)]
+            plan = [(1, 7, False, 3, 1), (2, 7, False, 3, 1), (3, 6, False, 4, 1),
+                    (1, 6, True, 3, 1), (2, 5, True, 3, 1), (3, 5, True, 4, 1)]
         exh_info = []
-        for cap, depth, max_issue, max_frag in plan:
-            leaves = gen_exhaustive(drv, cap, depth, tier, max_issue, max_frag)
-            exh_info.append(dict(cap=cap, depth=depth, histories=len(leaves), max_issue=max_issue, max_frag=max_frag))
-            streams.append(("exh-cap%d-d%d" % (cap, depth), [(cap, h) for h in leaves]))
+        for cap, depth, rich, max_issue, max_frag in plan:
+            leaves = gen_exhaustive(drv, cap, depth, rich, max_issue, max_frag)
+            exh_info.append(dict(cap=cap, depth=depth, rich_alphabet=rich, histories=len(leaves), max_issue=max_issue,
+                                 max_frag=max_frag))
+            streams.append(("exh-cap%d-d%d%s" % (cap, depth, "-rich" if rich else ""), [(cap, h) for h in leaves]))
         cov.extra["exhaustive"] = True
         cov.extra["exhaustive_part"] = exh_info
         cov.extra["exhaustive_alphabet"] = (
             "open: I (<= max_issue callers), D[H], D[E], F (<= max_frag), C r for every pending r and one completed r, "
             "A 1 s, A 29 s (quick: never two A in a row), PC, PE"
-            + ("; thorough adds D[H,H], D[E,H], D[H,E], D[O], A 30 s and consecutive A" if tier != "quick" else "")
+            + "; rich alphabet (thorough, see exhaustive_part) adds D[H,H], D[E,H], D[H,E], D[O], A 30 s and consecutive A"
             + "; after the transport closed: at most two more events from {I, D[H], A 30 s}; every history is followed by 31 s of silence")
         n_rand = 4000 if tier == "quick" else 120000
         streams.append(("random", gen_random(rng(seed, "c08rand"), n_rand, 40)))
